@@ -1,43 +1,49 @@
 ------------------------------ MODULE Gen_Ctr ------------------------------
 (***************************************************************************)
 (* Abstract machine of ONE CTR object for scenario generation (spec ->     *)
-(* impl): life-cycle phase x key state x stream-position class, and one    *)
-(* action per public function AND argument class the code distinguishes.   *)
-(* TLC dumps its complete state graph (-dump dot,actionlabels); vcheck     *)
-(* turns it into call sequences that cover EVERY edge, concretises the     *)
-(* argument classes from the seed, executes them on the real library (all  *)
-(* kinds, all back ends) and validates the recorded trace against the      *)
-(* contract (SkinnyTrace).  The machine itself asserts nothing: it only    *)
-(* guarantees that every modelled transition is exercised at least once.   *)
+(* impl): life-cycle phase x key state (family and size class) x stream-   *)
+(* position class, and one action per public function AND argument class   *)
+(* the code distinguishes.  TLC dumps its complete state graph (-dump      *)
+(* dot,actionlabels); vcheck turns it into call sequences that cover EVERY *)
+(* edge, concretises the argument classes from the seed, executes them on  *)
+(* the real library (all kinds, all back ends) and validates the recorded  *)
+(* trace against the contract (SkinnyTrace).  The machine itself asserts   *)
+(* nothing: it only guarantees that every modelled transition is exercised *)
+(* at least once.  KS = the key-size classes (in blocks) to distinguish:   *)
+(* {1} for the error-contract scenarios, {1,2,3} for the wipe scenarios    *)
+(* (re-keying from a longer to a shorter key leaves old round keys behind).*)
 (***************************************************************************)
 EXTENDS Naturals, TLC
+
+CONSTANT KS
 
 VARIABLES life, keyed, pos
 vars == <<life, keyed, pos>>
 
-(* life: zeroed | live | failed | dead;  keyed: none | plain | tweaked;      *)
-(* pos: "b" block boundary, "m" middle of a block                            *)
-Init == life = "zeroed" /\ keyed = "none" /\ pos = "b"
+(* life: zeroed | live | failed | dead;  keyed: <<family, size>> with family   *)
+(* none | plain | tweaked;  pos: "b" block boundary, "m" middle of a block     *)
+NoKey == <<"none", 0>>
+Init == life = "zeroed" /\ keyed = NoKey /\ pos = "b"
 
 Live == life = "live"
 
 DoInit(fail) ==
     /\ life # "live"
-    /\ life' = IF fail THEN "failed" ELSE "live"
-    /\ keyed' = "none" /\ pos' = "b"
+    /\ life' = (IF fail THEN "failed" ELSE "live")
+    /\ keyed' = NoKey /\ pos' = "b"
 
 DoCleanup ==
-    /\ life' = IF Live THEN "dead" ELSE life
-    /\ keyed' = IF Live THEN "none" ELSE keyed
-    /\ pos' = IF Live THEN "b" ELSE pos
+    /\ life' = (IF Live THEN "dead" ELSE life)
+    /\ keyed' = (IF Live THEN NoKey ELSE keyed)
+    /\ pos' = (IF Live THEN "b" ELSE pos)
 
-(* cls: valid | null | short | long | badrounds *)
-DoSetKey(cls) ==
-    /\ IF Live /\ cls = "valid" THEN keyed' = "plain" /\ pos' = "b" ELSE UNCHANGED <<keyed, pos>>
+(* cls: valid (z = size class) | null | short | long | badrounds (z = 0) *)
+DoSetKey(cls, z) ==
+    /\ IF Live /\ cls = "valid" THEN keyed' = <<"plain", z>> /\ pos' = "b" ELSE UNCHANGED <<keyed, pos>>
     /\ UNCHANGED life
 
-DoSetTweakedKey(cls) ==
-    /\ IF Live /\ cls = "valid" THEN keyed' = "tweaked" /\ pos' = "b" ELSE UNCHANGED <<keyed, pos>>
+DoSetTweakedKey(cls, z) ==
+    /\ IF Live /\ cls = "valid" THEN keyed' = <<"tweaked", z>> /\ pos' = "b" ELSE UNCHANGED <<keyed, pos>>
     /\ UNCHANGED life
 
 (* cls: full | short | null | zero_len | too_long ; on ANY key state (on a plainly keyed  *)
@@ -51,22 +57,26 @@ DoSetCounter(cls) ==
     /\ IF Live /\ cls # "too_long" THEN pos' = "b" ELSE UNCHANGED pos
     /\ UNCHANGED <<life, keyed>>
 
-(* cls: zero | part (ends inside a block) | align (ends at a block boundary) |   *)
-(*      long_part | long_align (more than two SIMD batches) | null_in | null_out  *)
+(* cls: zero | part (ends inside a block) | align (ends at a block boundary) |        *)
+(*      long_part | long_align (more than two SIMD batches) | batch (ends exactly at  *)
+(*      a multiple of 8 blocks since the position was last defined: every back end's  *)
+(*      keystream buffer is used up) | null_in | null_out                             *)
 DoEncrypt(cls) ==
     /\ IF Live /\ cls \in {"part", "long_part"} THEN pos' = "m"
-       ELSE IF Live /\ cls \in {"align", "long_align"} THEN pos' = "b"
+       ELSE IF Live /\ cls \in {"align", "long_align", "batch"} THEN pos' = "b"
        ELSE UNCHANGED pos
     /\ UNCHANGED <<life, keyed>>
 
 Next ==
     \/ \E f \in BOOLEAN : DoInit(f)
     \/ DoCleanup
-    \/ \E c \in {"valid", "null", "short", "long", "badrounds"} : DoSetKey(c)
-    \/ \E c \in {"valid", "null", "short", "long"} : DoSetTweakedKey(c)
+    \/ \E z \in KS : DoSetKey("valid", z)
+    \/ \E c \in {"null", "short", "long", "badrounds"} : DoSetKey(c, 0)
+    \/ \E z \in KS \cap {1, 2} : DoSetTweakedKey("valid", z)
+    \/ \E c \in {"null", "short", "long"} : DoSetTweakedKey(c, 0)
     \/ \E c \in {"full", "short", "null", "zero_len", "too_long"} : DoSetTweak(c)
     \/ \E c \in {"full", "short", "empty", "null", "too_long"} : DoSetCounter(c)
-    \/ \E c \in {"zero", "part", "align", "long_part", "long_align", "null_in", "null_out"} : DoEncrypt(c)
+    \/ \E c \in {"zero", "part", "align", "long_part", "long_align", "batch", "null_in", "null_out"} : DoEncrypt(c)
 
 Spec == Init /\ [][Next]_vars
 =============================================================================
